@@ -850,27 +850,51 @@ BINARY(addq,paddq,0xd4)
 BINARY(subq,psubq,0xfb)
 #endif
 
+/* In the partial iterations at the ends of an array (smaller loop_shift)
+ * only the first size << loop_shift bytes of a register belong to array
+ * elements.  What the other lanes hold after, say, adding a constant must not
+ * reach an accumulator, which sums every lane: returns a register holding
+ * the valid lanes only. */
+static int
+sse_acc_valid_lanes (OrcCompiler *p, OrcInstruction *insn)
+{
+  const int src = p->vars[insn->src_args[0]].alloc;
+  const int valid = p->vars[insn->src_args[0]].size << p->loop_shift;
+#ifndef MMX
+  const int regsize = 16;
+#else
+  const int regsize = 8;
+#endif
+  int tmp;
+
+  if (valid >= regsize) {
+    return src;
+  }
+
+  tmp = orc_compiler_get_temp_reg (p);
+  orc_sse_emit_movdqa (p, src, tmp);
+#ifndef MMX
+  orc_sse_emit_pslldq_imm (p, regsize - valid, tmp);
+#else
+  orc_sse_emit_psllq_imm (p, 8 * (regsize - valid), tmp);
+#endif
+  return tmp;
+}
+
 static void
 sse_rule_accw (OrcCompiler *p, void *user, OrcInstruction *insn)
 {
-  const int src = p->vars[insn->src_args[0]].alloc;
   const int dest = p->vars[insn->dest_args[0]].alloc;
 
-  orc_sse_emit_paddw (p, src, dest);
+  orc_sse_emit_paddw (p, sse_acc_valid_lanes (p, insn), dest);
 }
 
 static void
 sse_rule_accl (OrcCompiler *p, void *user, OrcInstruction *insn)
 {
-  const int src = p->vars[insn->src_args[0]].alloc;
   const int dest = p->vars[insn->dest_args[0]].alloc;
 
-#ifndef MMX
-  if (p->loop_shift == 0) {
-    orc_sse_emit_pslldq_imm (p, 12, src);
-  }
-#endif
-  orc_sse_emit_paddd (p, src, dest);
+  orc_sse_emit_paddd (p, sse_acc_valid_lanes (p, insn), dest);
 }
 
 static void
